@@ -306,6 +306,13 @@ def make_tasks(ctx):
                         elems[1] = G.enc(~G.dec(base))
                 else:
                     elems = _elems(G, rng, mode)
+                    if 'generic' in restr:  # distinct non-identity, non-opposite operands only
+                        for _ in range(50):
+                            a_, b_ = G.dec(elems[0]), G.dec(elems[1])
+                            e_ = G.ident()
+                            if not (a_ == e_ or b_ == e_ or a_ == b_ or a_ == ~b_):
+                                break
+                            elems = _elems(G, rng, mode)
                 quick = not ctx.thorough
                 sym = isinstance(G, c27.SymG)
                 heavy = cost != 'cheap' or sym          # a single operation costs 0.1 .. several seconds
